@@ -12,6 +12,7 @@ import NmVerif.Basic
 import NmVerif.Containers.Kinds
 import NmVerif.Containers.KindRefs
 import NmVerif.Lemmas.Kinds
+import NmVerif.Lemmas.KindRefusals
 namespace NmVerif.Props.C09
 open NmVerif NmVerif.Kinds NmVerif.KindRefs
 
@@ -178,5 +179,128 @@ theorem reshape_minus_one_bound_counterexample :
     `(3,2)` of the clipped repeats `(2,1)` -/
 theorem repeat_bounds_counterexample :
     repeatList [2, 2] [2, 1] (some 0) = some [3, 2] ∧ repeatList [2, 2] [3, 2] (some 0) ≠ some [3, 2] := by decide
+
+/-- known finding C09.reshape-clipped-bounds, second face: a clipped target extent whose RANGE reaches below 0
+    (`clipped_integer_t<int,-1,12>{12}`) is read as the `-1` placeholder by the result-type resolver; the result slot
+    gets the bound 1 (the element count of the remaining slots) and the extent 12 is clamped to it -/
+theorem reshape_negative_min_bound_counterexample :
+    reshape [2, 3, 2] [12] = some [12] ∧ clipList [1] [12] ≠ [12] := by decide
+
+/-! ### the reference refuses every member of the refusal classes of the kind matrix -/
+
+/-- all-positive target: accepted exactly when the element counts agree, and then the answer is the target itself.
+    In particular a target whose count is a proper divisor / a multiple of / coprime to the source count is
+    refused, whatever the kinds of the two arguments. -/
+theorem reshape_allpos_iff (src : List Nat) (dst : List Int) (r : List Nat) (h : ∀ d ∈ dst, 0 < d) :
+    reshape src dst = some r ↔ (prod (dst.map Int.toNat) = prod src ∧ r = dst.map Int.toNat) := by
+  unfold reshape
+  simp only [filter_neg_of_pos dst h, filter_nonneg_of_pos dst h, List.any_nil, List.length_nil]
+  by_cases hc : prod (dst.map Int.toNat) = prod src
+  · simp [hc, eq_comm]
+  · simp [hc]
+
+theorem reshape_refuses_count_mismatch (src : List Nat) (dst : List Int) (h : ∀ d ∈ dst, 0 < d)
+    (hc : prod (dst.map Int.toNat) ≠ prod src) : reshape src dst = none := by
+  cases hr : reshape src dst with
+  | none => rfl
+  | some r => exact absurd ((reshape_allpos_iff src dst r h).mp hr).1 hc
+
+example : reshape [12] [2, 3] = none := by decide
+example : reshape [6] [3, 4] = none := by decide
+example : reshape [6] [5] = none := by decide
+example : reshape [2, 3, 2] [12] = some [12] := by decide
+
+theorem reshape_refuses_two_unknown (src : List Nat) (dst : List Int)
+    (h : 2 ≤ (dst.filter (· < 0)).length) : reshape src dst = none := by
+  unfold reshape
+  simp only
+  split
+  · rfl
+  · split
+    · rename_i h0; omega
+    · rename_i h1; omega
+    · rfl
+
+theorem reshape_refuses_bad_extent (src : List Nat) (dst : List Int) (hs : Pos src) (d : Int) (hd : d ∈ dst)
+    (hbad : d = 0 ∨ d < -1) : reshape src dst = none := by
+  have hn := prod_pos hs
+  unfold reshape
+  simp only
+  split
+  · rfl
+  · rename_i hany
+    rcases hbad with h0 | hneg
+    · have hk : prod ((dst.filter (· ≥ 0)).map Int.toNat) = 0 := by
+        apply prod_eq_zero_of_mem
+        apply List.mem_map.mpr
+        exact ⟨d, List.mem_filter.mpr ⟨hd, by simp [h0]⟩, by simp [h0]⟩
+      split
+      · rw [hk]; simp; omega
+      · simp [hk]
+      · rfl
+    · exfalso
+      apply hany
+      apply List.any_eq_true.mpr
+      exact ⟨d, List.mem_filter.mpr ⟨hd, by simp; omega⟩, by simp; omega⟩
+
+example : reshape [6] [-1, -1] = none := by decide
+example : reshape [6] [0, -1] = none := by decide
+example : reshape [6] [-2, 3] = none := by decide
+
+/-- operand order does not matter (the kind matrix runs every request of a binary operation in both orders) -/
+theorem broadcastShape_comm (a b : List Nat) : broadcastShape a b = broadcastShape b a :=
+  broadcastShape_comm' a b
+
+example : broadcastShape [2, 1, 4] [3, 1] = some [2, 3, 4] ∧ broadcastShape [3, 1] [2, 1, 4] = some [2, 3, 4] := by decide
+
+/-- two extents that meet on the `k`-th axis counted from the last, differ and are both not 1: refused -/
+theorem broadcastShape_refuses_mismatch (a b : List Nat) (k x y : Nat)
+    (ha : a.reverse[k]? = some x) (hb : b.reverse[k]? = some y) (hxy : x ≠ y) (hx : x ≠ 1) (hy : y ≠ 1) :
+    broadcastShape a b = none := by
+  unfold broadcastShape
+  rw [bshapeRev_none_of_mismatch _ _ k x y ha hb (bdim_none hxy hx hy)]
+  rfl
+
+example : broadcastShape [2, 3, 4] [2, 1] = none := by decide
+example : [2, 3, 4].reverse[1]? = some 3 ∧ [2, 1].reverse[1]? = some 2 := by decide
+
+/-- `broadcast_to`: a source of higher rank than the target is refused -/
+theorem broadcastTo_refuses_longer (a b : List Nat) (h : b.length < a.length) : broadcastTo a b = none := by
+  unfold broadcastTo
+  have : ¬ a.length ≤ b.length := by omega
+  simp [this]
+
+/-- `broadcast_to`: an extent mismatch is refused -/
+theorem broadcastTo_refuses_mismatch (a b : List Nat) (k x y : Nat)
+    (ha : a.reverse[k]? = some x) (hb : b.reverse[k]? = some y) (hxy : x ≠ y) (hx : x ≠ 1) (hy : y ≠ 1) :
+    broadcastTo a b = none := by
+  unfold broadcastTo
+  rw [broadcastShape_refuses_mismatch a b k x y ha hb hxy hx hy]
+  simp
+
+example : broadcastTo [2, 3] [3] = none := by decide
+example : broadcastTo [3, 2] [2, 3, 4] = none := by decide
+example : broadcastTo [3, 1] [2, 3, 4] = some [2, 3, 4] := by decide
+
+theorem matmulShape_refuses_contraction (a b : List Nat) (x y : Nat)
+    (ha : a.reverse[0]? = some x) (hb : b.reverse[1]? = some y) (hxy : x ≠ y) : matmulShape a b = none := by
+  unfold matmulShape
+  by_cases hl : a.length < 2 ∨ b.length < 2
+  · simp [hl]
+  · have h1 : 2 ≤ a.length := by omega
+    have h2 : 2 ≤ b.length := by omega
+    rw [List.getElem?_reverse (by omega)] at ha hb
+    have e1 : (a.drop (a.length - 2)).getD 1 0 = x := by
+      rw [List.getD_eq_getElem?_getD, List.getElem?_drop]
+      have : a.length - 2 + 1 = a.length - 1 - 0 := by omega
+      rw [this, ha]; rfl
+    have e2 : (b.drop (b.length - 2)).getD 0 0 = y := by
+      rw [List.getD_eq_getElem?_getD, List.getElem?_drop]
+      have : b.length - 2 + 0 = b.length - 1 - 1 := by omega
+      rw [this, hb]; rfl
+    simp only [hl, if_false, e1, e2]
+    simp [hxy]
+example : matmulShape [2, 3] [2, 2] = none := by decide
+example : matmulShape [2, 1, 3, 4] [5, 4, 2] = some [2, 5, 3, 2] := by decide
 
 end NmVerif.Props.C09
